@@ -25,6 +25,68 @@ LENGTHS = (1.0, 3e-6, 250.0)
 MODULI = (1.0, 2e9, 3e-7)
 
 
+def own_F(cont, kind):
+    """Deformation gradient of the displacement field of a container at the quadrature points, written out from the nodal values the case
+    stored, the connectivity and the region's shape-function gradients (judged by C04): H_ij = sum_a u_ai dh_a/dX_j, F = 1 + H; a plane-
+    strain field is padded with F_33 = 1, an axisymmetric one (values (u_z, u_r), points (z, r)) with F_33 = 1 + u_r / r, both interpolated
+    with the shape functions. The references of the stress / view / export clauses take their kinematics from here, not from
+    FieldContainer.extract() (the routine behind the reported quantities)."""
+    fld = cont[0]
+    reg = fld.region
+    cells = reg.mesh.cells
+    u = np.asarray(fld.values, dtype=float)
+    dhdX = np.asarray(reg.dhdX)  # (a, j, q, c)
+    nq, nc = dhdX.shape[2], cells.shape[0]
+    d = u.shape[1]
+    H = np.zeros((d, d, nq, nc))
+    for a in range(cells.shape[1]):
+        ua = u[cells[:, a]]  # (c, i)
+        for i in range(d):
+            for j in range(d):
+                H[i, j] += ua[:, i] * dhdX[a, j]
+    if kind in ("planestrain", "axisymmetric"):
+        H = np.pad(H, ((0, 1), (0, 1), (0, 0), (0, 0)))
+        d = 3
+    if kind == "axisymmetric":
+        h = np.asarray(reg.h)
+        h = h[..., 0] if h.ndim == 3 else h  # (a, q)
+        ur = np.einsum("aq,ca->qc", h, u[:, 1][cells])
+        r = np.einsum("aq,ca->qc", h, np.asarray(reg.mesh.points)[:, 1][cells])
+        H[2, 2] = ur / r
+    return H + np.eye(d).reshape(d, d, 1, 1)
+
+
+def own_weights(reg):
+    """The weights of the region's rule at the rule's points. For a Gauss-Legendre rule (every point a tuple of the one-dimensional Gauss
+    points) they are products of numpy's one-dimensional weights, matched to the points (w_q = prod_i w1[x1 == xi_qi]): the order of the
+    weights must be the order of the points the data are given at. Other rules (simplex regions): the rule's own weights."""
+    pts = np.asarray(reg.quadrature.points, dtype=float)
+    nq, dim = pts.shape
+    n1 = int(round(nq ** (1.0 / dim)))
+    if n1 ** dim == nq:
+        x1, w1 = np.polynomial.legendre.leggauss(n1)
+        idx = np.abs(pts[:, :, None] - x1).argmin(-1)
+        if maxabs(pts - x1[idx]) < 1e-12:
+            return w1[idx].prod(1)
+    return np.asarray(reg.quadrature.weights)
+
+
+def own_dV(reg):
+    """The differential volumes w_q det(dX/dr) of every cell at the rule's points (q, c), from the point coordinates, the connectivity,
+    the element's shape-function gradients at the rule's points and the weights of own_weights()."""
+    if "MINI" in type(reg.element).__name__:
+        # (the geometry of a MINI cell is the one of its corner points, the bubble point carries no position: the region's own dV)
+        return np.broadcast_to(reg.dV, (reg.quadrature.npoints, reg.mesh.ncells))
+    pts = np.asarray(reg.quadrature.points, dtype=float)
+    X = np.asarray(reg.mesh.points)[reg.mesh.cells]  # (c, a, i)
+    w = own_weights(reg)
+    dV = np.zeros((len(pts), X.shape[0]))
+    for q, xi in enumerate(pts):
+        dhdr = np.asarray(reg.element.gradient(xi))  # (a, j)
+        dV[q] = w[q] * np.linalg.det(np.einsum("cai,aj->cij", X, dhdr))
+    return dV
+
+
 def fe_function(rng, reg, mesh, fam, shape):
     """Nodal values of a random FE function of the region's own space (any nodal values are one) and its quadrature values."""
     import felupe as fem
@@ -51,7 +113,7 @@ def naive_points(tool, vq, reg):
     the cells and dense algebra: the L2 projection on the region's space (mass matrix and right-hand side summed point by point,
     dense solve), the collocation solve per cell (the multilinear field of a Gauss-Legendre cell that takes the given values at the
     quadrature points) averaged over the attached cells, the q-th value moved to the q-th point of the cell and averaged. Only the
-    region's shape-function values at its quadrature points (judged by C04) and its dV are taken from the library. Rows of points
+    region's shape-function values at its quadrature points (judged by C04) are taken from the library (the measure: own_dV). Rows of points
     without cells are zero."""
     mesh = reg.mesh
     shape = vq.shape[:-2]
@@ -64,7 +126,7 @@ def naive_points(tool, vq, reg):
     ex = (slice(None), *([None] * len(shape)))
     out = np.zeros((mesh.npoints, *shape))
     if tool == "project":
-        dV = np.broadcast_to(reg.dV, (nq, nc))
+        dV = own_dV(reg)
         M = np.zeros((mesh.npoints, mesh.npoints))
         b = np.zeros((mesh.npoints, *shape))
         for c, cell in enumerate(mesh.cells):
@@ -138,7 +200,7 @@ def case_project(fam, rep):
             pr = fem.project(data, reg)
             size = int(np.prod(shape)) if shape else 1
             back = fem.Field(reg, dim=size, values=pr.reshape(mesh.npoints, size)).interpolate().reshape(data.shape)
-            dV = reg.dV
+            dV = own_dV(reg)  # (the measure of the integral is the reference's own: weights matched to the rule's points, det dX/dr)
             i0 = (data * dV).sum((-2, -1))
             i1 = (back * dV).sum((-2, -1))
             run.compare("post.project", "template=%s clause=integral-preserving" % fam, maxabs(i1 - i0) / max(maxabs(np.abs(data) * dV).sum() if False else float((np.abs(data) * dV).sum()), 1e-300),
@@ -157,7 +219,7 @@ def case_flags(fam, rep):
         mesh, _ = gen.build_mesh(fam, geo, rng)
         reg = gen.make_region(fam, mesh)
         nq, nc, npc = reg.quadrature.npoints, mesh.ncells, mesh.cells.shape[1]
-        w = reg.quadrature.weights
+        w = own_weights(reg)  # (numpy's Gauss-Legendre weights matched to the rule's points; simplex rules: the rule's own)
         mon = "post.flags"
         for shape in ((), (2, 3), (3,), HIGH[(rep + len(fam)) % 2]):
             nodal, vq = fe_function(rng, reg, mesh, fam, shape)
@@ -229,8 +291,8 @@ def case_flags(fam, rep):
                 pr = fem.project(data1, reg)
                 size = int(np.prod(shape)) if shape else 1
                 back = fem.Field(r2, dim=size, values=pr.reshape(mesh.npoints, size)).interpolate().reshape(*shape, Q2.npoints, nc)
-                i0 = (data1 * reg.dV).sum((-2, -1))
-                i1 = (back * r2.dV).sum((-2, -1))
+                i0 = (data1 * own_dV(reg)).sum((-2, -1))
+                i1 = (back * own_dV(r2)).sum((-2, -1))
                 run.compare(mon, "tool=project template=%s clause=one-point-rule-upgrade" % fam, maxabs(i1 - i0) / float((np.abs(data1) * reg.dV).sum()), 1e-11,
                             "project() of cell-constant data on the default one-point rule does not preserve the integral", unit="flags:project:simplex",
                             config=(fam, "project", "one-point", shape))
@@ -285,8 +347,8 @@ def case_simplex_upgrade(fam, rep):
             data1 = rng.standard_normal((*shape, 1, nc))
             pr = fem.project(data1, r1)
             back = fem.Field(rj, dim=size, values=pr.reshape(mesh.npoints, size)).interpolate().reshape(*shape, rj.quadrature.npoints, nc)
-            i0 = (data1 * r1.dV).sum((-2, -1))
-            i1 = (back * rj.dV).sum((-2, -1))
+            i0 = (data1 * own_dV(r1)).sum((-2, -1))
+            i1 = (back * own_dV(rj)).sum((-2, -1))
             run.compare("post.flags", "tool=project template=%s[one-point rule] clause=rule-upgrade-integral" % fam, maxabs(i1 - i0) / float((np.abs(data1) * r1.dV).sum()), 1e-11,
                         "project() of cell-constant data on a %s region with a one-point rule does not preserve the integral" % fam,
                         unit="flags:project:upgrade:" + fam, config=(fam, "upgrade", "integral", shape))
@@ -335,7 +397,7 @@ def case_extrapolate_lagrange(rep):
                                 "project() on a region whose rule is in tensor-product order (permute=False) does not return the nodal values of an FE function",
                                 unit="project:permute=False", config=("project-permute-false", dim))
                     data_t = rng.standard_normal(vq_t.shape)
-                    wq = rp.quadrature.weights
+                    wq = own_weights(rp)
                     ref_t = naive_points("topoints", np.repeat(((data_t * wq.reshape(-1, 1)).sum(-2) / wq.sum())[..., None, :], mp.cells.shape[1], axis=-2), rp)
                     for name, fnc in (("extrapolate", fem.tools.extrapolate), ("project", fem.project), ("topoints", fem.topoints)):
                         run.compare("post.flags", "tool=%s template=GaussLegendre(permute=False) clause=mean=True" % name, maxabs(fnc(data_t, rp, mean=True) - ref_t), 1e-13,
@@ -366,8 +428,9 @@ def case_extrapolate_lagrange(rep):
                     data = rng.standard_normal(vq_t.shape)
                     pr = fem.project(data, reg)
                     back = fem.Field(reg, dim=size, values=pr.reshape(mesh.npoints, size)).interpolate().reshape(data.shape)
-                    i0, i1 = (data * reg.dV).sum((-2, -1)), (back * reg.dV).sum((-2, -1))
-                    run.compare("post.project", "template=%s tool=project clause=integral-preserving" % lab, maxabs(i1 - i0) / float((np.abs(data) * reg.dV).sum()), 1e-11,
+                    dVo = own_dV(reg)
+                    i0, i1 = (data * dVo).sum((-2, -1)), (back * dVo).sum((-2, -1))
+                    run.compare("post.project", "template=%s tool=project clause=integral-preserving" % lab, maxabs(i1 - i0) / float((np.abs(data) * dVo).sum()), 1e-11,
                                 "project() does not preserve the volume integral (%s)" % lab, unit="project:integral:lagrange:" + grp, config=(lab, "integral", shape))
                     got_t = fem.topoints(data, reg, average=False).reshape(nc, npc, *shape)
                     run.compare("post.flags", "tool=topoints template=%s clause=average=False" % lab, maxabs(got_t - np.moveaxis(np.moveaxis(data, -1, 0), -1, 1)), 1e-14,
@@ -430,7 +493,7 @@ def case_topoints(fam, rep):
             vals = rng.standard_normal((*shape, nq, nc))
             cnt = np.zeros(mesh.npoints)
             ref = np.zeros((mesh.npoints, *shape))
-            w = reg.quadrature.weights
+            w = own_weights(reg)
             cm = (vals * w.reshape(-1, 1)).sum(-2) / w.sum()
             ref2 = np.zeros((mesh.npoints, *shape))
             for c in range(nc):
@@ -482,7 +545,7 @@ def case_cellless(which, fam, rep):
             vq = vq.reshape(*shape, *vq.shape[1:])
             nodal = vals.reshape(m.npoints, *shape)
             data = rng.standard_normal(vq.shape)
-            wq = reg.quadrature.weights
+            wq = own_weights(reg)
             cmq = np.repeat(((data * wq.reshape(-1, 1)).sum(-2) / wq.sum())[..., None, :], npc, axis=-2)
             results = []
             for name, fnc in (("project", fem.project), ("extrapolate", fem.tools.extrapolate)):
@@ -507,8 +570,9 @@ def case_cellless(which, fam, rep):
             pr = fem.project(data, reg)
             results.append(pr)
             back = fem.Field(reg, dim=size, values=pr.reshape(m.npoints, size)).interpolate().reshape(data.shape)
-            i0, i1 = (data * reg.dV).sum((-2, -1)), (back * reg.dV).sum((-2, -1))
-            run.compare("post.cellless", "tool=project template=%s clause=integral-preserving" % lab, maxabs(i1 - i0) / float((np.abs(data) * reg.dV).sum()), 1e-11,
+            dVo = own_dV(reg)
+            i0, i1 = (data * dVo).sum((-2, -1)), (back * dVo).sum((-2, -1))
+            run.compare("post.cellless", "tool=project template=%s clause=integral-preserving" % lab, maxabs(i1 - i0) / float((np.abs(data) * dVo).sum()), 1e-11,
                         "project() on a mesh with points without cells does not preserve the volume integral", unit="cellless:%s:project" % which,
                         config=(lab, "integral", shape))
             # what is handed on (to a plot, a file) must be numbers at every point
@@ -547,15 +611,16 @@ def case_uniform(fam, rep):
             data = rng.standard_normal(vq.shape)
             pr = fem.project(data, ru)
             back = fem.Field(r0, dim=size, values=pr.reshape(mesh.npoints, size)).interpolate().reshape(data.shape)
-            i0, i1 = (data * r0.dV).sum((-2, -1)), (back * r0.dV).sum((-2, -1))
-            run.compare(mon, "tool=project template=%s[uniform] clause=integral-preserving" % fam, maxabs(i1 - i0) / float((np.abs(data) * r0.dV).sum()), 1e-11,
+            dVo = own_dV(r0)
+            i0, i1 = (data * dVo).sum((-2, -1)), (back * dVo).sum((-2, -1))
+            run.compare(mon, "tool=project template=%s[uniform] clause=integral-preserving" % fam, maxabs(i1 - i0) / float((np.abs(data) * dVo).sum()), 1e-11,
                         "project() on a uniform=True region does not preserve the volume integral", unit="uniform:project:integral", config=(fam, geo, "integral", shape))
             run.compare(mon, "tool=project template=%s[uniform] clause=l2-projection" % fam, maxabs(pr - naive_points("project", data, r0)) / maxabs(data), 1e-10,
                         "project() of arbitrary data on a uniform=True region is not the L2 projection on the region's space", unit="uniform:project:l2",
                         config=(fam, geo, "l2", shape))
             run.compare(mon, "tool=topoints template=%s[uniform] clause=average" % fam, maxabs(fem.topoints(data, ru) - naive_points("topoints", data, r0)), 1e-13,
                         "topoints(average) on a uniform=True region is not the mean over the attached cells", unit="uniform:topoints", config=(fam, geo, "topoints", shape))
-            wq = ru.quadrature.weights
+            wq = own_weights(r0)
             cmq = np.repeat(((data * wq.reshape(-1, 1)).sum(-2) / wq.sum())[..., None, :], npc, axis=-2)
             ref = naive_points("topoints", cmq, r0)
             for name, fnc in (("extrapolate", fem.tools.extrapolate), ("project", fem.project), ("topoints", fem.topoints)):
@@ -653,12 +718,12 @@ def set_state(rng, field, amp=0.25, mu0=1.0):
         field[2].values[:] = 1 + 0.4 * amp * rng.standard_normal(field[2].values.shape)
 
 
-def draw_state(rng, field, lo, hi, tries=20):
-    """Another displacement state with det F >= 0.2 everywhere (redrawn, never dropped); returns F and det F."""
+def draw_state(rng, field, lo, hi, kind, tries=20):
+    """Another displacement state with det F >= 0.2 everywhere (redrawn, never dropped); returns F (own_F) and det F."""
     mesh = field.region.mesh
     for _ in range(tries):
         field[0].values[:] = gen.random_displacement(rng, mesh, grad=float(rng.uniform(lo, hi)))
-        F = field.extract()[0]
+        F = own_F(field, kind)
         J = np.linalg.det(np.moveaxis(F, (0, 1), (-2, -1)))
         if J.min() >= 0.2:
             return F, J
@@ -704,7 +769,7 @@ def case_stress_and_views(kind, fam, rep, ki=0, tier="quick"):
         def first_pk(cont):
             """P of a container's state from a law object of the reference's own: a fresh body for the plain one; for the condensed body
             the closed form P = P_iso(F) + p J F^-T with the body's pressure state of that very call (p, J are state variables)."""
-            Fc = cont.extract()[0]
+            Fc = own_F(cont, kind)
             if ni:
                 Jc = np.linalg.det(np.moveaxis(Fc, (0, 1), (-2, -1)))
                 cof = Jc * np.moveaxis(np.linalg.inv(np.moveaxis(Fc, (0, 1), (-2, -1))), (-2, -1), (1, 0))
@@ -712,15 +777,24 @@ def case_stress_and_views(kind, fam, rep, ki=0, tier="quick"):
             other = copy.deepcopy(cont)
             return fem.SolidBody(mk(), other).evaluate.gradient(other)[0]
 
-        F = field.extract()[0]
+        def law_pk(cont, Fc):
+            """P of a container's state from the law object itself, called by the reference at the reference's own F (no second body in
+            between: an error every SolidBody makes on the way from the field to the law shows); the pressure and volume-ratio fields of
+            a mixed container interpolated by their fields, the state variables of a new body (zeros)."""
+            law = mk()
+            sv = np.zeros((*law.x[-1].shape, *Fc.shape[-2:]))
+            return law.gradient([Fc, *[np.asarray(f.interpolate()) for f in cont.fields[1:]], sv])[0]
+
+        # (fourth audit) the kinematics of every reference below are the reference's own: F = 1 + sum_a u_a (x) dh_a/dX (+ u_r / r)
+        F = own_F(field, kind)
         P = solid.evaluate.gradient(field)[0]
-        d = P.shape[0]
+        d = 2 if kind == "2d" else 3  # (the tensor size of the field kind the case built, not the one of the array the body returned)
         J = np.linalg.det(np.moveaxis(F, (0, 1), (-2, -1)))
         tau_ref = np.einsum("ik...,jk...->ij...", P, F)
         lab = type(solid).__name__
         run.compare("post.stress", "item=%s clause=kirchhoff" % lab, maxabs(solid.evaluate.kirchhoff_stress(field) - tau_ref) / maxabs(tau_ref), 1e-13,
                     "kirchhoff_stress != P F^T", unit="stress:kirchhoff", config=(lab, kind, "kirchhoff"))
-        if P.shape[0] == 3:
+        if d == 3:
             run.compare("post.stress", "item=%s clause=cauchy" % lab, maxabs(solid.evaluate.cauchy_stress(field) - tau_ref / J) / maxabs(tau_ref / J), 1e-13,
                         "cauchy_stress != P F^T / det F", unit="stress:cauchy", config=(lab, kind, "cauchy"))
         else:
@@ -737,16 +811,23 @@ def case_stress_and_views(kind, fam, rep, ki=0, tier="quick"):
         run.compare("post.stress", "item=%s clause=stress-of-the-law" % lab, maxabs(P - Pi) / maxabs(Pi), 1e-12,
                     "the first Piola-Kirchhoff stress behind the reported stresses is not the one of the material law at this state",
                     unit="stress:law", config=(lab, kind, mname, "law"))
+        # (a difference of F in its last bits is one of eps / amplitude in the stress of a small state)
+        tol_law = max(1e-12, 1e2 * EPS / amp)
+        if not ni:
+            Pl = law_pk(field, F)
+            run.compare("post.stress", "item=%s clause=stress-of-the-law[called at own F]" % lab, maxabs(P - Pl) / maxabs(Pl), tol_law,
+                        "the first Piola-Kirchhoff stress behind the reported stresses is not the one the law object returns for F = 1 + grad u of this field",
+                        unit="stress:law:own-F", config=(lab, kind, mname, "law-own-F"))
         # ---- the reported stress belongs to the field handed in, whatever the body evaluated before (stale cached kinematics)
         vals0 = field[0].values.copy()
         for it in range(3):
             field[0].values[:] = gen.random_displacement(rng, mesh, grad=float(rng.uniform(0.1, 0.35)))
-            F2 = field.extract()[0]
+            F2 = own_F(field, kind)
             J2 = np.linalg.det(np.moveaxis(F2, (0, 1), (-2, -1)))
             if J2.min() < 0.2:
                 run.skip("post.stress", "det F < 0.2")
                 continue
-            first = ("cauchy", "kirchhoff")[(it + rep) % 2] if P.shape[0] == 3 else "kirchhoff"
+            first = ("cauchy", "kirchhoff")[(it + rep) % 2] if d == 3 else "kirchhoff"
             got = (solid.evaluate.cauchy_stress if first == "cauchy" else solid.evaluate.kirchhoff_stress)(field)
             # the stress the body evaluated for this call; the condensed body's p, J are updated by every evaluation (by
             # design), so only a plain SolidBody can be re-evaluated for an independent P
@@ -767,8 +848,13 @@ def case_stress_and_views(kind, fam, rep, ki=0, tier="quick"):
             run.compare("post.stress", "item=%s clause=%s-after-state-change[law]" % (lab, first), maxabs(got - refi) / maxabs(refi), 1e-12,
                         "%s_stress(field) evaluated first after the field changed is not built from the stress of the law at that field" % first,
                         unit="stress:after-state-change:law" + (":ni" if ni else ""), config=(lab, kind, first, "after-state-change-law"))
+            if not ni:
+                refl = np.einsum("ik...,jk...->ij...", law_pk(field, F2), F2) / (J2 if first == "cauchy" else 1.0)
+                run.compare("post.stress", "item=%s clause=%s-after-state-change[law called at own F]" % (lab, first), maxabs(got - refl) / maxabs(refl), 1e-12,
+                            "%s_stress(field) evaluated first after the field changed is not built from the stress the law object returns for F of that field" % first,
+                            unit="stress:after-state-change:law:own-F", config=(lab, kind, first, "after-state-change-law-own-F"))
         # ---- the evaluators without a field argument report the state of the last assembly (as after a Newton step)
-        F3, J3 = draw_state(rng, field, 0.1, 0.3)
+        F3, J3 = draw_state(rng, field, 0.1, 0.3, kind)
         if F3 is None:
             run.skip("post.stress", "no state with det F >= 0.2 in 20 draws")
         else:
@@ -779,7 +865,7 @@ def case_stress_and_views(kind, fam, rep, ki=0, tier="quick"):
             tau3 = np.einsum("ik...,jk...->ij...", P3, F3)
             run.compare("post.stress", "item=%s clause=kirchhoff-without-field" % lab, maxabs(solid.evaluate.kirchhoff_stress() - tau3) / maxabs(tau3), 1e-13,
                         "kirchhoff_stress() after an assembly is not P F^T of the assembled state", unit="stress:no-field-argument", config=(lab, kind, "no-field"))
-            if P3.shape[0] == 3:
+            if d == 3:
                 run.compare("post.stress", "item=%s clause=cauchy-without-field" % lab, maxabs(solid.evaluate.cauchy_stress() - tau3 / J3) / maxabs(tau3 / J3), 1e-13,
                             "cauchy_stress() after an assembly is not P F^T / det F of the assembled state", unit="stress:no-field-argument")
             if not ni:
@@ -823,7 +909,7 @@ def case_stress_and_views(kind, fam, rep, ki=0, tier="quick"):
             # a single cell (the layout handed to the plotting backend must not depend on the number of cells)
             m1 = fem.Mesh(mesh.points[mesh.cells[0]], np.arange(mesh.cells.shape[1]).reshape(1, -1), mesh.cell_type)
             f1 = fem.FieldContainer([fem.Field(gen.make_region(fam, m1), dim=3, values=field[0].values[mesh.cells[0]])])
-            F1 = np.moveaxis(f1.extract()[0].mean(-2), -1, 0)
+            F1 = np.moveaxis(own_F(f1, "3d").mean(-2), -1, 0)
             got1 = np.asarray(f1.view().mesh.cell_data["Deformation Gradient"]).reshape(1, 3, 3)
             run.compare("post.view", "view=field[single cell] key=Deformation Gradient clause=cell-mean", maxabs(got1 - F1) / maxabs(F1), 1e-13,
                         "view cell data 'Deformation Gradient' of a one-cell mesh is not the quadrature mean of F_ij", unit="view:Deformation Gradient:single-cell",
@@ -876,7 +962,7 @@ def case_stress_and_views(kind, fam, rep, ki=0, tier="quick"):
             if d == 2:
                 run.units["view:2d-tensors"] += 1
         # point data of the named stress / strain (project=...): the projected Voigt components
-        if kind == "3d" and P.shape[0] == 3 and not ni and field.region.quadrature.npoints >= mesh.cells.shape[1]:
+        if kind == "3d" and d == 3 and not ni and field.region.quadrature.npoints >= mesh.cells.shape[1]:
             sig = tau_ref / J
             vsp = solid.view(project=fem.topoints)
             refv = fem.topoints(np.array([sig[i, j] for i, j in VOIGT]), field.region)
@@ -930,7 +1016,7 @@ def case_stress_and_views(kind, fam, rep, ki=0, tier="quick"):
         # ---- the two documented arguments of ViewSolid are two objects: a container that is not the body's own one, in another
         # state (last block of the case: the body keeps the container it evaluated last)
         other = copy.deepcopy(field)
-        Fo, Jo = draw_state(rng, other, 0.1, 0.3)
+        Fo, Jo = draw_state(rng, other, 0.1, 0.3, kind)
         if Fo is None:
             run.skip("post.view", "no state with det F >= 0.2 in 20 draws")
             return
@@ -971,8 +1057,11 @@ def case_force_moment(rep):
             forces = f0 * rng.standard_normal(n)
             X = mesh.points
             b = fem.Boundary(field[0], fx=lambda x: x > np.median(X[:, 0]))
+            # the boundary's points are the ones the selection of the caller names (written out on the coordinates, not read back from
+            # the boundary object)
+            sel = np.flatnonzero(X[:, 0] > np.median(X[:, 0]))
             Fr = fem.tools.force(field, forces, b)
-            fr = forces[: mesh.npoints * d].reshape(-1, d)[b.points]
+            fr = forces[: mesh.npoints * d].reshape(-1, d)[sel]
             run.compare("post.force", "clause=force-sum", maxabs(Fr - fr.sum(0)) / f0, 1e-13, "tools.force is not the sum of nodal forces over the boundary's points",
                         unit="force", config=(kind, "force"))
             Fs = fem.tools.force(field, sp.csr_matrix(forces.reshape(-1, 1)), b)
@@ -980,12 +1069,12 @@ def case_force_moment(rep):
             if d == 3:
                 cp = L * rng.standard_normal(3)
                 M = fem.tools.moment(field, forces, b, centerpoint=cp)
-                xr = (X + field[0].values)[b.points] - cp
+                xr = (X + field[0].values)[sel] - cp
                 run.compare("post.force", "clause=moment-sum", maxabs(M - np.cross(xr, fr).sum(0)) / max(maxabs(M), 1e-300), 1e-12,
                             "tools.moment is not the sum of position-cross-force over the boundary's points", unit="moment", config=(kind, "moment"))
                 # the other documented forms of the arguments: the default centre (the origin), a centre given as a list, the force
                 # vector as the sparse or dense column an assembly returns
-                x0 = (X + field[0].values)[b.points]
+                x0 = (X + field[0].values)[sel]
                 M0 = np.cross(x0, fr).sum(0)
                 for form, got in (("default-centre", fem.tools.moment(field, forces, b)),
                                   ("list-centre", fem.tools.moment(field, forces, b, centerpoint=[float(c) for c in cp])),
@@ -1031,7 +1120,7 @@ def case_api_surface(rep):
         set_state(rng, field, 0.25)
         mk = material(rng, ("NeoHooke", "NeoHookeCompressible")[rep % 2], 1.0)
         solid = fem.SolidBody(mk(), field)
-        F = field.extract()[0]
+        F = own_F(field, "3d" if mesh.dim == 3 else "planestrain")
         P = mk().gradient([F, None])[0]
         J = np.linalg.det(np.moveaxis(F, (0, 1), (-2, -1)))
         tau = np.einsum("ik...,jk...->ij...", P, F)
@@ -1152,7 +1241,7 @@ SPEC = {
                        "cellless:finite", "uniform:project", "uniform:project:average=False", "uniform:project:integral", "uniform:project:l2", "uniform:extrapolate",
                        "uniform:topoints", "uniform:mean=True", "uniform:stress:cauchy", "uniform:view:Deformation Gradient", "uniform:view:Cauchy Stress",
                        # stress / view cases: field kinds, units, laws, references that are not read back, projected point data, foreign container
-                       "stress:field:2d", "stress:field:mixed", "stress:cauchy:2d", "view:2d-tensors", "stress:law", "stress:after-state-change:law",
+                       "stress:field:2d", "stress:field:mixed", "stress:cauchy:2d", "view:2d-tensors", "stress:law", "stress:law:own-F", "stress:after-state-change:law:own-F", "stress:after-state-change:law",
                        "stress:after-state-change:law:ni", "stress:length-unit:3e-06", "stress:length-unit:250", "stress:modulus:2e+09", "stress:modulus:3e-07",
                        "stress:small-amplitude", "stress:material:NeoHooke", "stress:material:NeoHookeCompressible", "stress:material:Yeoh(tensortrax)",
                        "stress:material:OgdenRoxburgh", "stress:material:LinearElasticLargeStrain", "stress:material:NI(NeoHooke)", "view:foreign-container",
